@@ -35,17 +35,17 @@ type readEv struct {
 }
 
 type storeModel struct {
-	id      int
-	ps      *piece.Pieces
-	geo     Geometry
-	key     uint64
-	content []byte
-	hashes  [][]byte
-	fin     map[int][]span
-	dis     map[int][]span
-	reads   []readEv
-	delSpan *span
-	delBy   int
+	id         int
+	ps         *piece.Pieces
+	geo        Geometry
+	key        uint64
+	content    []byte
+	hashes     [][]byte
+	fin        map[int][]span
+	dis        map[int][]span
+	reads      []readEv
+	delSpan    *span
+	delBy      int
 	delStarted bool
 }
 
